@@ -446,6 +446,11 @@ class Models:
         A(r'^<std::vec::Vec<T, A> as std::ops::Deref(Mut)?>::deref(_mut)?$|^<std::vec::Vec<T, A> as std::convert::As(Mut|Ref)<\[T\]>>::as_(mut|ref)$|^std::vec::Vec::<T, A>::as_(mut_)?slice$',
           name='vec_deref', value=vec_deref, nohavoc=True)
 
+        def from_one(I, st, args, akeys, t, dkey):
+            a = args[0]
+            st.m[dkey] = AV('ref', ty=t['dest']['ty'], tgt=a.tgt if a is not None and a.k == 'ref' else None, extra=('slicelen', 1, 1))
+        A(r'^(std|core)::slice::from_(mut|ref)$', name='slice_from_one', value=from_one, nohavoc=True)      # one-element slice over the referent: never panics
+
         # ---- indexing
         def index_pre(I, st, args, akeys, t):
             base, idx = args[0], args[1]
